@@ -3,6 +3,9 @@ interpreter and CPython run the same callbacks / link stubs."""
 
 import copy
 import queue
+import struct
+
+from nxslib.proto.iframe import DParseFrame, DParseHdr, EParseError, EParseId
 
 class RecCb:
     """Recording stand-in for nxslib.proto.iparserecv.ParseRecvCb."""
@@ -208,3 +211,60 @@ def nx_run(nx, ops):
             views.append("IndexError")
         views.append(nx_view(nx))
     return views
+
+
+class XorFrame:
+    """A CUSTOM frame codec (not nxslib's) honouring the ICommFrame interface: start byte 0x7E,
+    header = start, id, 16-bit little-endian total length; footer = XOR of all preceding bytes.
+    frame_decode treats its argument as exactly one frame (the interface allows that)."""
+
+    @property
+    def hdr_len(self):
+        return 4
+
+    @property
+    def foot_len(self):
+        return 1
+
+    def hdr_find(self, data):
+        return data.find(bytes([0x7E]))
+
+    def hdr_decode(self, data):
+        if data is None or len(data) < 4:
+            return DParseHdr(err=EParseError.HDR)
+        sof, _id, flen = struct.unpack("<BBH", data[:4])
+        if sof != 0x7E:
+            return DParseHdr(err=EParseError.HDR)
+        try:
+            fid = EParseId(_id)
+        except ValueError:
+            return DParseHdr(err=EParseError.HDR)
+        return DParseHdr(fid=fid, flen=flen)
+
+    def foot_validate(self, data):
+        x = 0
+        for b in data:
+            x ^= b
+        return x == 0
+
+    def frame_decode(self, data):
+        hdr = self.hdr_decode(data)
+        if hdr.err is not EParseError.NOERR:
+            return DParseFrame(err=hdr.err)
+        if hdr.flen != len(data) or hdr.flen < 5:
+            return DParseFrame(err=EParseError.FOOT)
+        if self.foot_validate(data) is False:
+            return DParseFrame(err=EParseError.FOOT)
+        return DParseFrame(fid=hdr.fid, data=data[4 : hdr.flen - 1])
+
+    def frame_create(self, fid, data):
+        n = 5
+        if data is not None:
+            n += len(data)
+        body = struct.pack("<BBH", 0x7E, fid, n)
+        if data is not None:
+            body += data
+        x = 0
+        for b in body:
+            x ^= b
+        return body + bytes([x])
